@@ -454,7 +454,13 @@ def _normalize_python_version_specifier(marker: MarkerExpression) -> BaseSpecifi
         # skip this case, so in the following code value must be a dotted version string
         return marker.specifier
     splitted = [p.strip() for p in value.split(".")]
-    if len(splitted) > 2 or "*" in splitted:
+    if "*" in splitted:
+        return marker.specifier
+    if op != "~=":
+        # python_version has two components: "3.8.0" compares like "3.8"
+        while len(splitted) > 2 and splitted[-1].isdigit() and int(splitted[-1]) == 0:
+            splitted.pop()
+    if len(splitted) > 2:
         return marker.specifier
     if len(splitted) == 1 and op != "~=":
         # python_version is always major.minor: "3" means "3.0"
